@@ -31,6 +31,7 @@ type harness struct {
 	Classify     func(v *interp.Violation) string
 	ThoroughOnly bool
 	MapOrder     int // >0: map iteration order is a symbolic permutation for maps up to this size
+	NoValidate   bool // skip native validation of clean paths (native run differs: real environment instead of models)
 }
 
 type property struct {
@@ -103,7 +104,9 @@ func initAllow(p string) bool {
 		}
 	}
 	switch p {
-	case "go/ast", "go/token", "strconv", "sort", "go/types", "go/constant":
+	case "go/ast", "go/token", "strconv", "sort", "go/types", "go/constant",
+		"io", "io/fs", "internal/oserror", "path", "path/filepath", "bufio", "bytes", "strings",
+		"go/scanner", "go/parser", "go/printer", "go/build/constraint":
 		return true
 	}
 	return false
@@ -247,7 +250,7 @@ func runProperty(rc *runCtx, spec *property) int {
 			}
 
 			// translator validation: explored feasible paths, concretised, must behave natively as predicted
-			if h.Replay != "none" && h.ReplayFn == nil && len(res.PathModels) > 0 {
+			if h.Replay != "none" && h.ReplayFn == nil && !h.NoValidate && len(res.PathModels) > 0 {
 				n, mismatches := validatePaths(rc, h, ovPaths, res)
 				hev.Validated = n
 				ev.TracesValidated += n
